@@ -140,8 +140,20 @@ def run_check(pid: str, tier: str, seed: int, only_shards: list[dict] | None = N
         else:
             unknown.append(v)
 
-    # non-vacuity
+    # non-vacuity (calibrated minima from vf/minima.json take precedence over the module's hand-written defaults)
     minima = getattr(mod, "MINIMA", {}).get(tier, getattr(mod, "MINIMA", {}).get("quick", {})) if only_shards is None else {}
+    if only_shards is None:
+        try:
+            with open(os.path.join(VERIF_DIR, "vf", "minima.json")) as f:
+                cal = json.load(f).get(pid, {}).get(tier)
+            if cal:
+                minima = cal
+        except FileNotFoundError:
+            pass
+    if os.environ.get("VERIF_DUMP"):
+        with open(os.environ["VERIF_DUMP"], "w") as f:
+            json.dump({"counters": dict(merged.counters), "conds": merged.conds, "distinct": len(merged.distinct), "violations": len(merged.violations),
+                       "shards_failed": len(merged.shards_failed), "harness_errors": merged.harness_errors[:3]}, f)
     for name, need in minima.items():
         if name.startswith("cond:"):
             have = merged.conds.get(name[5:], [0, 0, 0])[1]
